@@ -88,6 +88,7 @@ def observe(tr: Trace, k: int, clock: float) -> dict:
     try:
         try:
             res["state"] = face._state
+            res["_n_state_calls"] = len(scratch.trace.calls)
             res["running_steps"] = _drive(face.running_steps())
             d = face.to_dict()
             res["dict"] = json.loads(json.dumps(d, default=str))
@@ -102,6 +103,8 @@ def observe(tr: Trace, k: int, clock: float) -> dict:
         for o in c.oracle:
             oracle.append(o)
     res["oracle"] = oracle
+    # the policy consultations of ONE rebuild (the `_state` call), in order
+    res["oracle_state"] = [o for c in scratch.trace.calls[: res.pop("_n_state_calls", len(scratch.trace.calls))] for o in c.oracle]
     res["reduce_calls"] = sum(1 for c in scratch.trace.calls if c.kind == "reduce")
     res["rewind_calls"] = sum(1 for c in scratch.trace.calls if c.kind == "rewind")
     return res
@@ -182,3 +185,168 @@ def pick_prefixes(rng: random.Random, n: int, extra: int) -> list[int]:
     for _ in range(extra):
         ks.add(rng.randint(0, n))
     return sorted(ks)
+
+
+# ----------------------------------------------------------------------------------------------------------------------
+# known finding: a rebuild RE-DECIDES retry policies that stop by elapsed time (it reduces every tick at the clock of the call)
+
+KNOWN = "C11/replay_redecides_elapsed_time_policy"
+
+
+def elapsed_stop_steps(spec: dict) -> set[str]:
+    """steps of the spec whose retry policy stops by elapsed time (`stop_after_delay`)"""
+    return {s["name"] for s in spec.get("steps", []) if (s.get("retry") or {}).get("kind") == "delay"}
+
+
+def live_consults(tr: Trace, k: int) -> list:
+    """policy consultations of the live reducer while it processed the first k recorded ticks, in order"""
+    calls = [c for c in tr.calls if c.caller in ("run", "_process_tick")]
+    if calls and calls[0].kind == "rewind":
+        calls = calls[1:]
+    out: list = []
+    n = 0
+    for c in calls:
+        if c.error is not None or n >= k:
+            break
+        out += list(c.oracle)
+        n += 1
+    return out
+
+
+def _decisions(cons: list) -> list[tuple]:
+    return [(s, att, enc.exc(err), "X" if d == "RAISE" else enc.num(d)) for (s, _el, att, err, d) in cons]
+
+
+_MODEL_AGREES_LIVE: dict[int, bool] = {}
+
+
+def _model_agrees(label: str, ops: list[str], exp: list[str]) -> bool:
+    from ..runner import Driver, diff_streams
+
+    try:
+        mo = Driver("engine").run(ops)
+    except Exception:  # noqa: BLE001
+        return False
+    return diff_streams(label, ops, mo, exp) is None
+
+
+def redecided(tr: Trace, obs: dict) -> bool:
+    """the difference between what was rebuilt from the first k ticks and the live state after them is explained by a retry
+    decision taken differently: (1) a step whose policy stops by elapsed time was answered differently in the rebuild than
+    live — the first consultation that differs is one of such a step; (2) the model, fed the REBUILD's recorded answers at the
+    rebuild's clock, is the real rebuild (so nothing but the answers and the clock went into it: a reducer that reads its
+    clock in any other way fails here); (3) the model, fed the LIVE answers at the recorded times, is the live run."""
+    slow = elapsed_stop_steps(tr.spec)
+    if not slow or "error" in obs or tr.handler is None:
+        return False
+    lv, rb = _decisions(live_consults(tr, obs["k"])), _decisions(obs.get("oracle_state", []))
+    i = 0
+    while i < min(len(lv), len(rb)) and lv[i] == rb[i]:
+        i += 1
+    if i == len(lv) == len(rb):
+        return False  # every consultation was answered as it was live
+    first = rb[i] if i < len(rb) else lv[i]
+    if first[0] not in slow:
+        return False
+    o, e = rebuild_lines(tr, obs)
+    if not _model_agrees("engine-rebuild", o, e):
+        return False
+    if id(tr) not in _MODEL_AGREES_LIVE:
+        from . import corr
+
+        try:
+            lo, le = corr.live_lines(tr)
+            _MODEL_AGREES_LIVE[id(tr)] = bool(lo) and _model_agrees("engine-live", lo, le)
+        except Exception:  # noqa: BLE001
+            _MODEL_AGREES_LIVE[id(tr)] = False
+    return _MODEL_AGREES_LIVE[id(tr)]
+
+
+def classify_views(tr: Trace, obs: dict, vs: list[Violation]) -> list[Violation]:
+    """`mon_views` violations of one observation, with the known finding told apart"""
+    if not vs or not any(v.signature in ("C11/running_steps_differs_from_live", "C11/to_dict_differs_from_live") for v in vs):
+        return vs
+    if not redecided(tr, obs):
+        return vs
+    out = []
+    for v in vs:
+        if v.signature == "C11/running_steps_differs_from_live":
+            v = Violation(KNOWN + ":running_steps", v.what, v.replay)
+        elif v.signature == "C11/to_dict_differs_from_live":
+            v = Violation(KNOWN + ":to_dict", v.what, v.replay)
+        out.append(v)
+    return out
+
+
+def _first_differing_prefix(tr: Trace, clock: float) -> int | None:
+    from . import monitors
+
+    states = live_states(tr)
+    base = tr.handler._external_adapter
+    if states is None:
+        return None
+    init, ticks = base.init_state, list(base._queues.ticks)
+    scratch = live.Run({"steps": []}, random.Random(0))
+    live._ACTIVE.append(scratch)
+    saved = CL.time
+    CL.time = FixedClock(clock)  # type: ignore[attr-defined]
+    try:
+        for k in range(min(len(states), len(ticks) + 1)):
+            try:
+                rebuilt = CL.rebuild_state_from_ticks(init, ticks[:k])
+            except Exception:  # noqa: BLE001
+                return None
+            if monitors.state_sans_time(rebuilt) != monitors.state_sans_time(states[k]):
+                return k
+    finally:
+        CL.time = saved  # type: ignore[attr-defined]
+        live._ACTIVE.pop()
+    return None
+
+
+def mon_c11_classified(tr: Trace) -> list[Violation]:
+    """`monitors.mon_c11`, with the known finding told apart (only for runs that have a step whose policy stops by elapsed
+    time; every other run, and every difference that is not a re-decided retry, keeps mon_c11's signatures)"""
+    from . import monitors
+
+    vs = monitors.mon_c11(tr)
+    if not vs or not elapsed_stop_steps(tr.spec) or tr.handler is None or logged_ticks(tr) is None:
+        return vs
+    out: list[Violation] = []
+    end = int(getattr(tr, "end_time", 0) or 1000)
+    snaps_done = False
+    for v in vs:
+        if v.signature == "C11/replay_differs":
+            clock = end + 1000  # like mon_c11 (wall clock): later than everything the run recorded
+            k = _first_differing_prefix(tr, clock)
+            if k is not None and redecided(tr, observe(tr, k, clock)):
+                v = Violation(KNOWN, v.what + f" (first at {k} ticks: a retry policy that stops by elapsed time answered differently in the rebuild)", v.replay)
+            out.append(v)
+        elif v.signature == "C11/to_dict_differs_from_live":
+            if snaps_done:
+                continue
+            snaps_done = True
+            # every snapshot the run took: re-observed at its own clock over the ticks recorded before it
+            generic = known = 0
+            for snap in tr.snapshots:
+                runner_calls = [c for c in tr.calls[: snap["at_call"]] if c.caller in ("run", "_process_tick")]
+                k = sum(1 for c in runner_calls if c.kind == "reduce" and c.error is None)
+                try:
+                    obs = observe(tr, k, int(snap["vtime"]))
+                except Exception:  # noqa: BLE001
+                    generic += 1
+                    continue
+                got = [x for x in mon_views(tr, obs) if x.signature == "C11/to_dict_differs_from_live"]
+                if not got:
+                    continue
+                if redecided(tr, obs):
+                    known += 1
+                else:
+                    generic += 1
+            if known:
+                out.append(Violation(KNOWN + ":to_dict", v.what, v.replay))
+            if generic or not known:
+                out.append(v)
+        else:
+            out.append(v)
+    return out
